@@ -14,6 +14,7 @@ import collections.abc
 import signal
 import re
 import sys
+import gc
 import tracemalloc
 
 import yaql
@@ -39,7 +40,8 @@ ASSUMPTIONS = [
 ]
 REQUIRED = {'src.cases': 300, 'src.pulled_cases': 100, 'reach.limit_iterable': 100, 'outcome.CollectionTooLargeException': 50,
             'shape.cases': 100, 'mem.cases': 100, 'mem.args_measured': 1000, 'outcome.MemoryQuotaExceededException': 20,
-            'reach.limit_memory_usage': 1000, 'pr.*': 120, 'producer.proxied_calls': 20}
+            'reach.limit_memory_usage': 1000, 'pr.*': 120, 'producer.proxied_calls': 20,
+            'limit.legacy_cases': 10, 'limit.yaqlized_method_cases': 5, 'limit.engine_copy_cases': 10, 'src.element_kind_cases': 100}
 
 CASE_ALARM = 90
 MEM_CAP = [30000]
@@ -662,6 +664,64 @@ def _worlds(spec, mon, rec):
         if out != ('value', n + 5):
             rec.violation('limit-of-engine-copy-not-applied:lifted', '%s on a copy of a limited, used engine that lifts the limits gave %s' % (
                 text, _short(out)), {'kind': 'engine-copy', 'text': text, 'n': n})
+    # (f) the legacy flavour (its own range(), list(), tuples, filtering indexer) under the same limits: whatever the
+    #     outcome, nothing is unrolled or repeated past the quota before it is refused
+    from yaql import legacy as ylegacy
+    q = 100000
+    leng = ylegacy.YaqlFactory().create(options={'yaql.limitIterators': max(n, 1000), 'yaql.memoryQuota': q})
+    lctx = ylegacy.create_context()
+    big = 1000000
+    for text in ('0.range(%d) * 2' % big, '2 * 0.range(%d)' % big, 'list(1, 2, 3) * %d' % big, '%d * list(1, 2, 3)' % big,
+                 '0.range(%d)' % big, '0.range(%d).select($)' % big, '0.range(%d).where(true).list()' % big, "'ab' * %d" % big,
+                 '0.range(%d).list()' % big, '0.range(%d) + 0.range(%d)' % (big, big), '0.range(%d)[$ > 5]' % big,
+                 '0.range(%d).orderBy($)' % big, '0.range(%d).join(0.range(%d), true, $)' % (big, big), 'list(0.range(%d))' % big,
+                 '0.range(%d).distinct()' % big, '0.range(%d).reverse()' % big, '0.range(%d).toSet()' % big, 'dict(a => 0.range(%d))' % big):
+        try:
+            st = leng(text)
+        except Exception:
+            rec.count('limit.legacy_texts_not_in_grammar')
+            continue
+        gc.collect()
+        tracemalloc.start()
+        tracemalloc.reset_peak()
+        base = tracemalloc.get_traced_memory()[0]
+        try:
+            out = _timed_statement(st, lctx.create_child_context(), 60)
+        finally:
+            peak = tracemalloc.get_traced_memory()[1] - base
+            tracemalloc.stop()
+        rec.count('src.cases')
+        rec.count('limit.legacy_cases')
+        rec.case(('legacy-limit', text, n), nontrivial=True)
+        if out[0] == 'timeout':
+            rec.inconc('legacy case %r stopped by the per-case alarm' % text)
+        elif peak > 64 * q + (2 << 20):
+            rec.violation('legacy-evaluation-allocated-past-the-quota', '%s on a legacy engine with limitIterators=%d / memoryQuota=%d: '
+                          'tracemalloc peak %d bytes (outcome %s)' % (text, max(n, 1000), q, peak, _short(out)),
+                          {'kind': 'legacy-limit', 'text': text, 'n': n})
+        elif out[0] == 'value':
+            bigc = oversized(out[1], max(n, 1000))
+            if bigc:
+                rec.violation('oversized-collection-in-result:legacy', '%s on a legacy engine with limitIterators=%d returned a %s of %d '
+                              'elements' % (text, max(n, 1000), bigc[0], bigc[1]), {'kind': 'legacy-limit', 'text': text, 'n': n})
+
+
+def _timed_statement(st, ctx, seconds):
+    import signal
+
+    def on_alarm(*a):
+        raise TimeoutError()
+    old = signal.signal(signal.SIGALRM, on_alarm)
+    signal.alarm(seconds)
+    try:
+        return ('value', st.evaluate(context=ctx))
+    except TimeoutError:
+        return ('timeout',)
+    except Exception as e:
+        return ('exc', e)
+    finally:
+        signal.alarm(0)
+        signal.signal(signal.SIGALRM, old)
 
 
 def _timed_eval(eng, text, ctx, seconds=20):
